@@ -201,40 +201,73 @@ def any_arms_rule(run, ctx):
                 run.violation(fam, label, var + "/no-newline-test", H.where(a[0]), "Insn::AnyNoNL must reject a newline byte")
                 continue
             if should_match:
-                if failed or len(adv) != 1 or adv[0].b != "+=" or adv[0].c != "codepoint_len_at(s,ix)":
+                if failed or len(adv) != 1 or adv[0].b != "+=" or adv[0].c not in ("codepoint_len_at(s,ix)", "codepoint_len(s[ix])"):
                     run.violation(fam, label, var + "/step", H.where(a[0]), "Insn::%s must advance ix by the code point length at ix (found %s)" % (var, [(e.b, e.c) for e in adv]))
             else:
                 if not failed or adv:
                     run.violation(fam, label, var + "/fail", H.where(a[0]), "Insn::%s must fail without moving at the end of the text%s" % (var, " or on a newline" if var == "AnyNoNL" else ""))
-    # Lit
+    # Lit / Backref: compare byte-wise at ix with matches_literal(s, ix, ix + len(L), L); on success ix = that end, on
+    # failure fail without moving (path summaries: independent of statement order, temporaries, parameter order)
+    def compare_advance(arm, var, lit_ok):
+        nonlocal n
+        okp = {"match": 0, "fail": 0}
+        for p in fam_vm.fpaths(arm["body"]):
+            sm = S.Summary(p, ("state.",))
+            cmp_ = None
+            for text, truth, node, env in sm.conds:
+                for nd in H.walk(node):
+                    if nd.get("k") == "Call" and str(H.peel(nd["f"]).get("def", "")).endswith("matches_literal"):
+                        cmp_ = (S.named_args(ctx, nd, env), truth, env)
+            failing = p.exit == "break" and p.label == "'fail"
+            if cmp_ is None:
+                if not failing or "ix" in sm.final:
+                    run.violation(fam, label, var + "/no-compare", H.where(arm), "Insn::%s: a path continues without comparing the text at ix (%s)" % (var, p.show()[:140]))
+                    return
+                continue
+            na, truth, env = cmp_
+            if na is None or na.get("s") != "s" or na.get("ix") != "ix" or na.get("end") not in ("(ix + len(%s))" % na.get("literal"), "(len(%s) + ix)" % na.get("literal")) or not lit_ok(na.get("literal"), sm):
+                run.violation(fam, label, var + "/compare-args", H.where(arm), "Insn::%s must compare the %s byte-wise at ix over exactly its length: matches_literal(s, ix, ix + len(L), L); found %s" % (var, "literal" if var == "Lit" else "referenced text", na))
+                return
+            if truth:
+                if failing or sm.final.get("ix") != na["end"]:
+                    run.violation(fam, label, var + "/advance", H.where(arm), "Insn::%s must advance ix to the end of the compared text after a successful comparison (found ix = %s)" % (var, sm.final.get("ix")))
+                    return
+                okp["match"] += 1
+            else:
+                if not failing or "ix" in sm.final:
+                    run.violation(fam, label, var + "/mismatch", H.where(arm), "Insn::%s must fail without moving ix when the text differs" % var)
+                    return
+                okp["fail"] += 1
+        n += 1
+        if min(okp.values()) < 1:
+            run.violation(fam, label, var + "/anchor-missing", H.where(arm), "anchor-missing: Insn::%s needs a matching and a failing outcome (found %s)" % (var, okp))
+
     a = arms.get("Lit")
     if a:
-        c = H.canon(a[0]["body"])
-        n += 1
-        if not H.pat_match("let {e} = (ix + len({v})); if !matches_literal(s,ix,{e},{v}) {break 'fail}; ix = {e}", c):
-            run.violation(fam, label, "Lit", H.where(a[0]), "Insn::Lit must compare the literal byte-wise at ix and advance by its length, found %s" % c)
+        v = H.pat_match("Insn::Lit({v})", H.pat_canon(a[0]["pat"]))
+        V = v.group("v") if v else "val"
+        compare_advance(a[0], "Lit", lambda lit, sm: lit == V)
     else:
         run.violation(fam, label, "anchor-missing/Lit", H.where(fn), "anchor-missing: Lit arm")
     ml = S.get_fn(run, ctx, "vm::matches_literal", fam, label)
     if ml is not None:
         c = H.canon(H.peel(ml["body"]))
-        ps = [p.get("name") for p in ml["params"]]
         n += 1
-        if c != "((%s <= len(%s)) && (%s[%s..%s] == %s))" % (ps[2], ps[0], ps[0], ps[1], ps[2], ps[3]) and \
-           c != "((%s <= len(%s)) && (%s == %s[%s..%s]))" % (ps[2], ps[0], ps[3], ps[0], ps[1], ps[2]):
+        if c not in ("((end <= len(s)) && (s[ix..end] == literal))", "((end <= len(s)) && (literal == s[ix..end]))"):
             run.violation(fam, label, "matches_literal", H.where(ml), "matches_literal must be `end <= s.len() && s.as_bytes()[ix..end] == literal.as_bytes()`, found %s" % c)
-    # Backref tail
+    # Backref: the referenced text is s[state.get(slot)..state.get(slot + 1)], both slots tested against the unset marker
     a = arms.get("Backref")
     if a:
-        c = H.canon(a[0]["body"])
-        n += 1
         slot = H.pat_match("Insn::Backref({s})", H.pat_canon(a[0]["pat"]))
         S_ = slot.group("s") if slot else "slot"
-        pat = ("let {lo} = state.get(%s); if (MAX == {lo}) {break 'fail}; let {hi} = state.get((1 + %s)); if (MAX == {hi}) {break 'fail}; "
-               "{*guard}let {rt} = s[{lo}..{hi}]; let {e} = (ix + len({rt})); if !matches_literal(s,ix,{e},{rt}) {break 'fail}; ix = {e}") % (S_, S_)
-        m = H.pat_match(pat, c) or H.pat_match(pat.replace("{*guard}", ""), c)
-        if not m:
-            run.violation(fam, label, "Backref/shape", H.where(a[0]), "Insn::Backref must read the slot pair (slot, slot+1), fail on an unset slot, and compare the referenced text byte-wise at ix, advancing by its length; found %s" % c[:260])
+        LO, HI = "state.get(%s)" % S_, "state.get((1 + %s))" % S_
+
+        def backref_lit(lit, sm):
+            if lit != "s[%s..%s]" % (LO, HI):
+                return False
+            falses = {t for t, tr, _, _ in sm.conds if tr is False}
+            return ("(MAX == %s)" % LO) in falses and ("(MAX == %s)" % HI) in falses
+        compare_advance(a[0], "Backref", backref_lit)
     else:
         run.violation(fam, label, "anchor-missing/Backref", H.where(fn), "anchor-missing: Backref arm")
     # BackrefExistsCondition tests the start slot 2*group
@@ -661,9 +694,33 @@ def slot_rule(run, ctx):
                 run.violation(fam, label, "Delegate/" + key, w, "Insn::Delegate: " + what)
         need("let input = Input::new(s).span(ix..len(s)).anchored(Anchored::Yes)" in c or "Input::new(s).span(ix..len(s)).anchored(Anchored::Yes)" in c,
              "anchored", "the delegate must search s[ix..] anchored at ix (otherwise it would find a later match and skip text)")
-        need("if (%s == %s) {match %s.search_half(input) {Some(m) => ix = m.offset(); _ => break 'fail}}" % (EG, SG, IN) in c
-             or "if (%s == %s) {match %s.search_half(input) {Some(m) => ix = m.offset(); _ => break 'fail}}" % (SG, EG, IN) in c,
-             "no-groups", "without groups the delegate's end offset becomes ix, a failed search fails the thread")
+        # without groups: search_half; its end offset becomes ix, a failed search fails the thread (path-based)
+        ng_ok = {"some": 0, "none": 0}
+        ng_bad = None
+        for p in fam_vm.fpaths(arm["body"]):
+            eqc = [ev for ev in p.events if ev.kind == "cond" and ev.a in ("(%s == %s)" % (EG, SG), "(%s == %s)" % (SG, EG))]
+            neq = [ev for ev in p.events if ev.kind == "cond" and ev.a in ("(%s != %s)" % (EG, SG), "(%s != %s)" % (SG, EG))]
+            nogroups = (eqc and eqc[0].b is True) or (neq and neq[0].b is False)
+            if not nogroups:
+                continue
+            oc = S.opt_outcomes(p, "%s.search_half({*})" % IN)
+            if not oc:
+                ng_bad = "no search_half on the no-groups path"
+                break
+            i0, kind, bound = oc[0]
+            asg = [ev for ev in p.events[i0:] if ev.kind == "assign" and ev.a == "ix"]
+            if kind == "some":
+                m = re.match(r"^Some\((\w+)\)$", bound or "")
+                if p.exit == "break" or len(asg) != 1 or asg[0].b != "=" or not m or asg[0].c != "%s.offset()" % m.group(1):
+                    ng_bad = "a successful search_half must set ix to its end offset (found %s)" % [(e.b, e.c) for e in asg]
+                    break
+            else:
+                if not (p.exit == "break" and p.label == "'fail") or asg:
+                    ng_bad = "a failed search_half must fail the thread without moving ix"
+                    break
+            ng_ok[kind] += 1
+        need(ng_bad is None and ng_ok["some"] >= 1 and ng_ok["none"] >= 1,
+             "no-groups", "without groups the delegate's end offset becomes ix, a failed search fails the thread" + (" (%s)" % ng_bad if ng_bad else ""))
         def lin(nd):
             lf = H.linear(nd)
             return (dict(lf[0]), lf[1]) if lf else None
